@@ -168,11 +168,13 @@ func VerifC10Wedge(spec VerifC10WedgeSpec) VerifC10WedgeObs {
 		mu.Unlock()
 	}
 	runner.closeSend()
+	rdog := VerifNewDog(10)
 	select {
 	case <-cr.done:
 		obs.ReaderDone = true
-	case <-time.After(10 * time.Second):
+	case <-rdog.C:
 	}
+	rdog.Stop()
 	obs.RunAtDone = runner.isRunning()
 	timeout := spec.TimeoutS
 	if timeout <= 0 || timeout > 120 {
@@ -186,7 +188,9 @@ func VerifC10Wedge(spec VerifC10WedgeSpec) VerifC10WedgeObs {
 	var waitMs, stopMs int64
 	go func() { e := runner.waitForResponses(); waitMs = time.Since(t0).Milliseconds(); waitCh <- e }()
 	go func() { runner.stop(); stopMs = time.Since(t0).Milliseconds(); close(stopCh) }()
-	watchdog := time.After(time.Duration(timeout) * time.Second)
+	dog := VerifNewDog(timeout)
+	defer dog.Stop()
+	watchdog := dog.C
 	obs.Wait = "hang"
 	waitOut, stopOut := false, false
 	for !(waitOut && stopOut) {
